@@ -10,6 +10,8 @@
  *   s  mpt_stream_input over a socket pair, COBS framing, no message id
  *   c  mpt_notify_connect to a unix stream socket (COBS + 2 byte message id)
  *   f  mpt_notify_connect to a FIFO (COBS, no id)
+ *   p  mpt_stream_input with a 2 byte message id on the read end of a pipe
+ *      (read-only: no reply possible)
  *   l  mpt_notify_bind listener (keeps listening), o (single connection);
  *      connections they accept become inputs of kind c with the next token
  * Readiness is real: peers write to / shut down / connect real descriptors
@@ -125,6 +127,10 @@ static long long *loop_rs;
 static size_t loop_nrs, loop_pos;
 static int in_loop, used_r, used_clear, nsub, loop_waits;
 static int loop_rvs[MAXIN + 1];
+static long long *loop_cl;
+static size_t loop_ncl;
+/* a harness input's next() may remove another input (scripted: kill=<killer>,<victim>) */
+static int kill_i, kill_v;
 static const struct cmd *loop_cmd;
 
 static int handler(void *arg, MPT_STRUCT(event) *ev)
@@ -144,9 +150,11 @@ static int handler(void *arg, MPT_STRUCT(event) *ev)
 		ndatas++;
 	}
 	if (in_loop) {
+		used_clear = (loop_pos < loop_ncl && loop_cl[loop_pos]) ? 1 : 0;
 		if (loop_pos < loop_nrs) { r = (int) loop_rs[loop_pos++]; }
 		else r = 4;                 /* script exhausted: ask the loop to terminate */
-		used_r = r; used_clear = 0;
+		used_r = r;
+		if (used_clear) ev->id = 0;
 		return r;
 	}
 	if (hr_clear) ev->id = 0;
@@ -212,6 +220,11 @@ static int h_next(MPT_INTERFACE(input) *in, int what)
 	while (!h->unrefs && h->nraw < sizeof(h->raw)
 	       && (got = recv(h->fd, h->raw + h->nraw, sizeof(h->raw) - h->nraw, MSG_DONTWAIT)) > 0) {
 		h->nraw += (size_t) got;
+	}
+	if (h->tok == kill_i && kill_v >= 1 && kill_v <= nin && kill_v != h->tok
+	    && tab[kill_v].kind && !tab[kill_v].released && tab[kill_v].fd >= 0) {
+		if (cur == tab[kill_v].in) cur = 0;
+		mpt_notify_clear(&no, tab[kill_v].fd);
 	}
 	return h->rv;
 }
@@ -474,7 +487,7 @@ static void answer(struct cmd *c, const char *ret, int dint, int dret, int raw)
 
 /* one internal step of mpt_loop as its own record */
 static int sub_rvs[MAXIN + 1];
-static int sub_what;
+static int sub_what, sub_blk;
 static void sub_event(const char *a)
 {
 	int i;
@@ -487,7 +500,10 @@ static void sub_event(const char *a)
 		j_arr_open("rvs");
 		for (i = 1; i <= sub_rvs[0]; i++) j_item_int(sub_rvs[i]);
 		j_arr_close();
+		j_arr_open("kill"); j_item_int(kill_i); j_item_int(kill_v); j_arr_close();
+		j_int("blk", sub_blk);
 	}
+	else if (!strcmp(a, "loopbegin")) j_int("hnd", no._disp.cmd ? 1 : 0);
 	else if (!strcmp(a, "dispatch") || !strcmp(a, "default")) {
 		j_int("r", used_r);
 		j_int("clear", used_clear);
@@ -495,7 +511,11 @@ static void sub_event(const char *a)
 	else j_int("x", 0);
 	fputs("},\"obs\":{", drv_out);
 	drv_first = 1;
-	if (!strcmp(a, "dispatch")) emit_tail("any", 1, disp_class(last_disp_ret));
+	if (!strcmp(a, "dispatch")) {
+		emit_tail("any", 1, disp_class(last_disp_ret));
+		/* what the input handed back to the loop */
+		j_open("st"); j_int("neg", last_disp_ret < 0); j_int("def", (last_disp_ret >= 0 && (last_disp_ret & MPT_EVENTFLAG(Default))) ? 1 : 0); j_close();
+	}
 	else if (!strcmp(a, "default")) emit_tail("any", 1, emit_class(last_emit_ret));
 	else emit_tail("any", 0, 0);
 	fputs("},\"dbg\":{}}\n", drv_out);
@@ -525,7 +545,7 @@ extern int hk_notify_wait(MPT_STRUCT(notify) *n, int what, int timeout)
 	if (++loop_waits > 200) return -1;
 	sub_rvs[0] = nin;
 	for (t = 1; t <= nin; t++) sub_rvs[t] = (tab[t].kind == 'h' && !tab[t].released) ? tab[t].h->rv : 1;
-	sub_what = what;
+	sub_what = what; sub_blk = timeout < 0 ? 1 : 0;
 	r = mpt_notify_wait(n, what, 0);
 	sub_event("wait");
 	remember_waiting();
@@ -606,6 +626,19 @@ static int do_add(struct cmd *c, int kind, int t)
 		}
 		r = mpt_notify_add(&no, POLLIN, s->in);
 	}
+	else if (kind == 'p') {
+		MPT_STRUCT(socket) sock;
+		if (pipe(sv) < 0) return -100;
+		track(sv[0]); track(sv[1]);
+		s->fd = sv[0]; s->peer = sv[1];
+		set_ino(s);
+		s->idlen = 2;
+		sock._id = sv[0];
+		s->in = mpt_stream_input(&sock, MPT_STREAMFLAG(Read) | MPT_STREAMFLAG(Buffer), MPT_ENUM(EncodingCobs), 2);
+		if (!s->in) return -101;
+		s->ps = peer_stream(sv[1]);
+		r = mpt_notify_add(&no, POLLIN, s->in);
+	}
 	else if (kind == 'c') {
 		struct sockaddr_un addr;
 		char dest[96];
@@ -682,10 +715,7 @@ static int send_msg(struct slot *s, const uint8_t *d, size_t n)
 	}
 	if (!s->ps) return -3;
 	if (s->fd >= 0) ioctl(s->fd, FIONREAD, &before);
-	if (s->idlen) {
-		static const uint8_t zero[8] = { 0 };
-		if (mpt_stream_push(s->ps, (size_t) s->idlen, zero) < 0) return -4;
-	}
+	/* the data is the whole message, message id included where the input expects one */
 	if (n && mpt_stream_push(s->ps, n, d) < 0) return -5;
 	if (mpt_stream_push(s->ps, 0, 0) < 0) return -6;
 	if (mpt_stream_flush(s->ps) < 0) { s->ps = 0; s->peer = -1; return -7; }   /* writer broken: not used again */
@@ -703,6 +733,14 @@ static void set_rvs(struct cmd *c)
 	for (i = 1; i <= (size_t) nin; i++) {
 		if (tab[i].kind == 'h' && tab[i].h) tab[i].h->rv = (i <= n) ? (int) v[i - 1] : 1;
 	}
+	free(v);
+}
+static void set_kill(struct cmd *c)
+{
+	size_t n = 0;
+	long long *v = drv_ints(c, "kill", &n);
+	kill_i = n >= 2 ? (int) v[0] : 0;
+	kill_v = n >= 2 ? (int) v[1] : 0;
 	free(v);
 }
 static uintptr_t limbs_in(struct cmd *c, const char *key)
@@ -766,6 +804,33 @@ static void drv_step(struct cmd *c)
 		r = mpt_notify_add(&no, POLLIN, &h->_in);
 		answer(c, r < 0 ? "refused" : "ok", 0, 0, r);
 	}
+	else if (!strcmp(a, "addfile")) {
+		/* an input on a descriptor the kernel refuses to watch (regular file); the caller then drops the descriptor */
+#ifdef DRV_POLL
+		drv_begin(c); j_str("ret", "skipped"); drv_dbg(); drv_end(); clear_logs();
+		return;
+#else
+		char path[64];
+		int fd, r;
+		struct hin *h;
+		new_path(path, sizeof(path), "file");
+		fd = open(path, O_RDWR | O_CREAT, 0600);
+		unlink(path);
+		h = h_new(REFUSED_TOK, -1, fd);
+		r = mpt_notify_add(&no, POLLIN, &h->_in);
+		if (fd >= 0) close(fd);
+		answer(c, r < 0 ? "refused" : "ok", 0, 0, r);
+#endif
+	}
+	else if (!strcmp(a, "direct")) {
+		/* a handler installed directly on the notifier; what was there gets its end-of-life call first */
+		if (no._disp.cmd) no._disp.cmd(no._disp.arg, 0);
+		disp = 0;
+		no._disp.cmd = handler;
+		no._disp.arg = (void *) (intptr_t) drv_int(c, "tok", 0);
+		wrap_disp();
+		answer(c, "ok", 0, 0, 0);
+	}
 	else if (!strcmp(a, "send")) {
 		int i = (int) drv_int(c, "i", 0), r = -9;
 		size_t n = 0;
@@ -778,9 +843,9 @@ static void drv_step(struct cmd *c)
 		int i = (int) drv_int(c, "i", 0), r = -9;
 		const char *how = drv_raw(c, "how");
 		if (i >= 1 && i <= nin && tab[i].kind && tab[i].peer >= 0) {
-			if (tab[i].kind == 'f' || (how && !strcmp(how, "close"))) r = close(tab[i].peer);
-			else r = shutdown(tab[i].peer, SHUT_WR);
-			if (tab[i].kind == 'f' || (how && !strcmp(how, "close"))) tab[i].peer = -1;
+			int cl = tab[i].kind == 'f' || tab[i].kind == 'p' || (how && !strcmp(how, "close"));
+			r = cl ? close(tab[i].peer) : shutdown(tab[i].peer, SHUT_WR);
+			if (cl) tab[i].peer = -1;
 		}
 		answer(c, r < 0 ? "refused" : "ok", 0, 0, r);
 	}
@@ -804,7 +869,9 @@ static void drv_step(struct cmd *c)
 	else if (!strcmp(a, "wait")) {
 		int r;
 		set_rvs(c);
+		set_kill(c);
 		r = mpt_notify_wait(&no, (int) drv_int(c, "what", -1), 0);
+		kill_i = kill_v = 0;
 		/* the peer writers of accepted connections are set up once they are known */
 		drv_begin(c); emit_tail(r < 0 ? "refused" : "ok", 0, 0); emit_dbg(r); drv_end(); clear_logs();
 	}
@@ -865,13 +932,18 @@ static void drv_step(struct cmd *c)
 	else if (!strcmp(a, "loop")) {
 		int r, t;
 		set_rvs(c);
+		set_kill(c);
 		loop_rs = drv_ints(c, "rs", &loop_nrs);
+		loop_cl = drv_ints(c, "cl", &loop_ncl);
 		loop_pos = 0; nsub = 0; loop_waits = 0;
 		remember_waiting();
 		in_loop = 1;
+		sub_event("loopbegin");
 		r = drv_mpt_loop(&no);
 		in_loop = 0;
+		kill_i = kill_v = 0;
 		free(loop_rs); loop_rs = 0;
+		free(loop_cl); loop_cl = 0; loop_ncl = 0;
 		(void) t;
 		answer(c, "ok", 0, 0, r);
 	}
